@@ -853,9 +853,9 @@ impl NativeFunctionCall {
     fn mod_op(&self, params: &[Rc<Value>]) -> Result<Rc<dyn RTObject>, StoryError> {
         match params[0].value {
             ValueType::Int(op1) => match params[1].value {
-                ValueType::Int(0) => Err(StoryError::InvalidStoryState(
-                    "Modulo by zero.".to_owned(),
-                )),
+                ValueType::Int(0) => {
+                    Err(StoryError::InvalidStoryState("Modulo by zero.".to_owned()))
+                }
                 ValueType::Int(op2) => Ok(Rc::new(Value::new::<i32>(op1.wrapping_rem(op2)))),
                 _ => Err(StoryError::InvalidStoryState(
                     "Operation not available for type.".to_owned(),
